@@ -245,14 +245,16 @@ def refsOf (f : Feat) : List Id :=
 def directRefs (w : World) (id : Id) (S : List Id) : List Id :=
   (w.filter fun f => (refsOf f).any fun t => decide (t = id) || decide (t ∈ S)).map (·.id)
 
-def closure (w : World) (id : Id) : Nat → List Id → List Id
-  | 0, S => S
+def closure (w : World) (id : Id) : Nat → List Id → Option (List Id)
+  | 0, _ => none
   | k + 1, S =>
     let new := (directRefs w id S).filter (fun s => decide (s ∉ S))
-    if new.isEmpty then S else closure w id k (S ++ new)
+    if new.isEmpty then some S else closure w id k (S ++ new)
 
-/-- `allReferences(f, w)`: the transitive referrers (C15) -/
-def referrers (w : World) (id : Id) : List Id := closure w id (w.length + 1) []
+/-- `allReferences(f, w)`: the transitive referrers (C15 `find_refs_spec`: `FindReferences` returns
+exactly the set closed under "references a member"). The iteration answers only with a set it has
+found closed; `none` (round bound exceeded) does not occur in practice and is treated as a panic. -/
+def referrers (w : World) (id : Id) : Option (List Id) := closure w id (w.length + 2) []
 
 inductive AddResult where
   | ok (w : World)
@@ -269,14 +271,33 @@ def addFeature (O : Oracle) (w : World) (f : Feat) : AddResult :=
   | some (true, _) =>
     let w' := put w f
     if (find w f.id).isSome then
-      let rs := (referrers w f.id).filterMap (find w')
-      match rs.foldl (fun acc g => match acc with
-          | some true => (validateFeature O false w' g).map (·.1)
-          | other => other) (some true) with
+      match referrers w f.id with
       | none => .panic
-      | some false => .rejected
-      | some true => .ok w'
+      | some R =>
+        match (R.filterMap (find w')).foldl (fun acc g => match acc with
+            | some true => (validateFeature O false w' g).map (·.1)
+            | other => other) (some true) with
+        | none => .panic
+        | some false => .rejected
+        | some true => .ok w'
     else .ok w'
+
+/-- `MutableOverlayWorld.AddFeature` seen through the layered view `w` (the current features of the
+world): validate `f`, then every feature of the referrer set `R` the world's `FindReferences` returned
+(C15: the transitive referrers in the layered world) with `f` swapped in — whether or not `f` replaces
+a feature of the overlay (fix "skipped referrer validation for base features"). The copies the overlay
+makes do not change the layered view, which becomes `put w f`. -/
+def addFeatureWith (O : Oracle) (w : World) (f : Feat) (R : List Id) : AddResult :=
+  match validateFeature O false w f with
+  | none => .panic
+  | some (false, _) => .rejected
+  | some (true, _) =>
+    match (R.filterMap (find (put w f))).foldl (fun acc g => match acc with
+        | some true => (validateFeature O false (put w f) g).map (·.1)
+        | other => other) (some true) with
+    | none => .panic
+    | some false => .rejected
+    | some true => .ok (put w f)
 
 /-! ## compact.Validator (streaming) -/
 
